@@ -205,7 +205,9 @@ def expected(node, v):
             raw = b[:n].ljust(n, b"\0")
             whole = raw.decode(e)
             if node.get("nullTerminated"):
-                return raw.split(b"\0")[0].decode(e) if e != "utf-16-le" else whole.split("\0")[0]
+                # "ends at the first null": a null CHARACTER of the decoded text (for the single-byte-unit encodings this
+                # is the same as the first zero byte; for utf-16/utf-32 zero bytes occur inside ordinary characters)
+                return raw.split(b"\0")[0].decode(e) if e not in WIDE else whole.split("\0")[0]
             return whole
         if c == "p":
             if n == 0:
@@ -322,10 +324,13 @@ PLAIN_NAMES = ["a", "b", "c", "d", "ab", "abc", "b1", "b2", "x", "y0", "z", "id"
 ODD_NAMES = ["Z", "A", "_a", "é", "a b", "ß", "日本", "a.b", "B1", "a-b", "0", "Ab", "default",
              "index", "items", "required"]
 ENCODINGS = ["utf-8", "utf-8", "utf-8", "ascii", "latin-1"]
+WIDE = ("utf-16-le", "utf-16-be", "utf-16", "utf-32-le", "utf-32")
 CHARS = {"utf-8": ["a", "b", "Z", "0", " ", "é", "ß", "€", "日", "😀", "\x7f", "x", "y"],
          "ascii": ["a", "b", "Z", "0", " ", "~", "\x7f", "x"],
          "latin-1": ["a", "b", "Z", "é", "ß", "\xff", "\x80", "0"],
-         "utf-16-le": ["a", "é", "日", "b"]}
+         "utf-16-le": ["a", "é", "日", "b", "\u0100", "Z", "😀"]}
+for _e in WIDE:
+    CHARS[_e] = CHARS["utf-16-le"]
 
 
 def gen_scalar(rng):
@@ -362,7 +367,7 @@ def gen_scalar(rng):
             fmt = "p" if (n == 1 and rng.random() < 0.3) else f"{n}p"
             node = {"type": "string", "binaryFormat": fmt}
         if rng.random() < 0.4:
-            node["stringEncoding"] = rng.choice(ENCODINGS + (["utf-16-le"] if fmt.endswith("p") else []))
+            node["stringEncoding"] = rng.choice(ENCODINGS + ["utf-16-le"] + (list(WIDE) if rng.random() < 0.5 else []))
         return node
     node = {"type": "null"}
     if rng.random() < 0.8:
@@ -462,11 +467,10 @@ def gen_string(rng, e, target, straddle_ok=False):
         ch = rng.choice(CHARS[e])
         b = len(ch.encode(e))
         if size + b > target and not straddle_ok:
-            ch, b = "a", 1
-            if e == "utf-16-le":
-                b = 2
-                if size + b > target:
-                    break
+            ch = "a"
+            b = len("a".encode(e)) if e not in ("utf-16", "utf-32") else (2 if e == "utf-16" else 4)
+            if size + b > target:
+                break
         out.append(ch)
         size += b
     return "".join(out)
@@ -531,7 +535,7 @@ def gen_value(rng, node, boundary=0.5):
     targets = [cap, cap, max(cap - 1, 0), cap + 1, cap + 3, cap // 2, 2 * cap + 1, 1, 2]
     target = min(rng.choice(targets), 320)
     s = gen_string(rng, e, target, straddle_ok=rng.random() < 0.06)
-    if s and rng.random() < 0.1 and e != "utf-16-le":
+    if s and rng.random() < 0.1 and e not in WIDE:
         i = rng.randrange(len(s))
         s = s[:i] + "\0" + s[i + 1:]
     return s
@@ -1121,8 +1125,10 @@ def np_compare(v, node, exp, raw, bad, path="row"):
     if got.rstrip(b"\0") != raw.rstrip(b"\0"):
         bad.append(f"{path}: numpy bytes {got!r} != stored {raw!r}")
     e = node.get("stringEncoding", "utf-8")
-    if isinstance(exp, str) and not node.get("nullTerminated") and exp.encode(e).rstrip(b"\0") != got.rstrip(b"\0"):
-        bad.append(f"{path}: numpy bytes {got!r} != decoded string {exp!r}")
+    if isinstance(exp, str) and not node.get("nullTerminated") and e not in ("utf-16", "utf-32"):
+        # (utf-16 / utf-32 prepend a byte-order mark on every encode: the stored-bytes comparison above decides there)
+        if exp.encode(e).rstrip(b"\0") != got.rstrip(b"\0"):
+            bad.append(f"{path}: numpy bytes {got!r} != decoded string {exp!r}")
 
 
 def check_numpy(ctx, ms, schema, good, s, detail, buffers=None):
